@@ -170,6 +170,8 @@ def _impl_tone(case):
            'rms': float(util.rms(x)),
            'phase': _try(lambda: float(util.phase(x, fs, window=w, unwrap=False)[k])),
            'phase_unwrapped': _try(lambda: float(util.phase(x, fs, window=w)[k])),
+           'unwrap_steps': _try(lambda: float(np.max(np.abs(np.diff(util.phase(x, fs, window=w)))))),
+           'wrapped_max': _try(lambda: float(np.max(np.abs(util.phase(x, fs, window=w, unwrap=False))))),
            'phase_avg': _try(lambda: float(util.phase(np.concatenate([x] * B + [np.full(case['r'], 7.5)]), fs, window=w,
                                                       waveform_averages=B, unwrap=False)[k])),
            'tone_conv': _cx(util.tone_conv(x, fs, f, window=w, detrend=None)),
@@ -269,6 +271,14 @@ def _impl_known(case):
         x = np.random.RandomState(5).uniform(-1, 1, case['N'])
         back = util.csd_to_signal(util.csd(x, detrend=None))
         return {'x': _fl(x), 'back': _fl(back)}
+    if case['what'] == 'batch-inverse':
+        X = np.stack([_tone(case['N'], 3 + 2 * i, 1.0 + i, 0.3) for i in range(case['rows'])])
+        back = util.csd_to_signal(util.csd(X, detrend=None))
+        return {'shape': list(back.shape), 'ratio': float(back[0, 0] / X[0, 0]), 'rowwise_ok': bool(np.allclose(
+            np.stack([util.csd_to_signal(util.csd(r, detrend=None)) for r in X]), X))}
+    if case['what'] == 'int16-rms':
+        x = np.round(_tone(case['N'], 3, case['A'], 0.3)).astype(np.int16)
+        return {'int16': float(util.rms(x)), 'float': float(util.rms(x.astype(float)))}
     if case['what'] == 'default-detrend':
         x = _tone(case['N'], case['k'], 1.0, case['p'])
         return {'default': float(abs(util.csd(x)[case['k']])), 'none': float(abs(util.csd(x, detrend=None)[case['k']])),
@@ -281,12 +291,386 @@ def _impl_known(case):
     raise KeyError(case['what'])
 
 
+# ----------------------------------------------------------------------------------------------------------------
+# variants of the argument kinds: detrend modes, dtypes, window tuples, axes, labelled (pandas) twins, batches
+LOOSE = {'kaiser': 2e-3, 'tukey': 1e-3, 'gaussian': 1e-3}      # how well a non-cosine-sum window reads a tone 8+ bins from the ends
+
+
+def _line(case, n):
+    return case['a'] + case['b'] * np.arange(n)
+
+
+def _impl_var(case):
+    import pandas as pd
+    util = _util()
+    w = case['what']
+    if w == 'detrend':
+        N, k, A, p, fs, B = case['N'], case['k'], case['A'], case['p'], case['fs'], case['B']
+        win = case.get('window')
+        dk = {'constant': {'detrend': 'constant'}, 'linear': {'detrend': 'linear'}, 'default': {}}[case['mode']]
+        x = np.concatenate([_tone(N, k, A, p)] * B)
+        y = x + (_line(case, len(x)) if case['mode'] != 'constant' else case['a'])
+        y0 = y.copy()
+        yr = y.copy()
+        yr.setflags(write=False)
+        f = k * fs / N
+        res = {'csd_y': _cx(util.csd(y[:N], window=win, **dk)), 'csd_x': _cx(util.csd(x[:N], window=win, **dk)),
+               'psd_y': _fl(util.psd(y, fs, window=win, waveform_averages=B, **dk)),
+               'psd_x': _fl(util.psd(x, fs, window=win, waveform_averages=B, **dk)),
+               'tc_y': _cx(util.tone_conv(y[:N], fs, f, window=win, **dk)), 'tc_x': _cx(util.tone_conv(x[:N], fs, f, window=win, **dk)),
+               'tp_y': float(util.tone_power_conv(y[:N], fs, f, window=win, **dk)),
+               'tp_x': float(util.tone_power_conv(x[:N], fs, f, window=win, **dk)),
+               'tph_y': float(util.tone_phase_conv(y[:N], fs, f, window=win)), 'tph_x': float(util.tone_phase_conv(x[:N], fs, f, window=win)),
+               'default_is_linear': bool(np.array_equal(util.csd(y[:N], window=win), util.csd(y[:N], window=win, detrend='linear'))
+                                         and np.array_equal(util.tone_conv(y[:N], fs, f), util.tone_conv(y[:N], fs, f, detrend='linear'))
+                                         and np.array_equal(util.psd(y, fs), util.psd(y, fs, detrend='linear'))),
+               'readonly': _try(lambda: _cx(util.csd(yr[:N], window=win, **dk))),
+               'readonly_tc': _try(lambda: _cx(util.tone_conv(yr[:N], fs, f, window=win, **dk))),
+               'readonly_psd': _try(lambda: _fl(util.psd(yr, fs, window=win, waveform_averages=B, **dk)))}
+        res['unchanged'] = bool(np.array_equal(y, y0))
+        return res
+    if w == 'dtype':
+        N, k, A, p, fs, B, dt = case['N'], case['k'], case['A'], case['p'], case['fs'], case['B'], case['dtype']
+        x = _tone(N, k, A, p)
+        if dt == 'list':
+            xq = [float(v) for v in x]
+            xf = np.array(xq)
+        else:
+            xq = (x if dt == 'float32' else np.round(x)).astype(dt)
+            xf = xq.astype(np.float64)
+        f = k * fs / N
+        lq = xq * B if dt == 'list' else np.concatenate([xq] * B)
+        lf = np.concatenate([xf] * B)
+
+        def dev(fn):
+            a, b = fn(xq, lq), fn(xf, lf)
+            return float(np.max(np.abs(np.asarray(a) - np.asarray(b)))) / A
+        res = {'psd': dev(lambda x1, l1: util.psd(l1, fs, waveform_averages=B, detrend=None)),
+               'psd_default': dev(lambda x1, l1: util.psd(l1, fs, waveform_averages=B)),
+               'psd_bin': float(util.psd(lq, fs, waveform_averages=B, detrend=None)[k]), 'want': float(np.abs(_dft(xf)[k]) * np.sqrt(2) / N)}
+        if dt != 'list':
+            res.update(csd=dev(lambda x1, l1: util.csd(x1, detrend=None)), csd_default=dev(lambda x1, l1: util.csd(x1)),
+                       csd_hann=dev(lambda x1, l1: util.csd(x1, window='hann', detrend=None)),
+                       phase=dev(lambda x1, l1: util.phase(x1, fs, unwrap=False)[k]),
+                       tone_conv=dev(lambda x1, l1: util.tone_conv(x1, fs, f, detrend=None)),
+                       tone_power=dev(lambda x1, l1: util.tone_power_conv(x1, fs, f)),
+                       rms=dev(lambda x1, l1: util.rms(x1)), rms_detrend=dev(lambda x1, l1: util.rms(x1, detrend=True)),
+                       same_input=bool(np.array_equal(xq, (x if dt == 'float32' else np.round(x)).astype(dt))))
+        return res
+    if w == 'winkind':
+        N, k, A, p, fs = case['N'], case['k'], case['A'], case['p'], case['fs']
+        win = _wspec(case['window'])
+        x = _tone(N, k, A, p)
+        f = k * fs / N
+        return {'csd': _cx(util.csd(x, window=win, detrend=None)), 'psd_k': float(util.psd(x, fs, window=win, detrend=None)[k]),
+                'tc': _cx(util.tone_conv(x, fs, f, window=win, detrend=None)),
+                'tp': float(util.tone_power_conv(x, fs, f, win, None)),          # positional twin of window=, detrend=
+                'phase_k': float(util.phase(x, fs, win, unwrap=False)[k])}
+    if w == 'rmsax':
+        X = np.random.RandomState(case['seed']).uniform(-1, 1, case['shape'])
+        ax = case['axis']
+        idx = np.arange(X.shape[ax]).reshape([-1 if i == ax % X.ndim else 1 for i in range(X.ndim)])
+        # a line along `ax` whose offset and slope change QUADRATICALLY along the other axes: removed by detrending along
+        # `ax`, not by detrending along any other axis
+        q = np.zeros_like(X)
+        for i in range(X.ndim):
+            if i != ax % X.ndim:
+                q = q + (np.arange(X.shape[i]).reshape([-1 if j == i else 1 for j in range(X.ndim)]) ** 2)
+        line = (case['a'] + case['b'] * idx) * (1 + q)
+        C = util.csd(X, detrend=None)
+        flat = C.reshape(-1, C.shape[-1])
+        return {'r': _fl(util.rms(X, axis=ax)), 'shape': list(np.shape(util.rms(X, axis=ax))), 'r_default': _fl(util.rms(X)),
+                'r_explicit_false': _fl(util.rms(X, False, ax)),
+                'rd_y': _fl(util.rms(X + line, detrend=True, axis=ax)), 'rd_x': _fl(util.rms(X, detrend=True, axis=ax)),
+                'rd_line': float(np.max(util.rms(line, detrend=True, axis=ax))), 'r_line': float(np.max(util.rms(line, axis=ax))),
+                'rfft_rows': _fl(util.rms_rfft(C)), 'rfft_shape': list(np.shape(util.rms_rfft(C))),
+                'rfft_series': float(util.rms_rfft(pd.Series(flat[0]))), 'rfft_1d': float(util.rms_rfft(flat[0])),
+                'rfft_list_ok': _try(lambda: float(util.rms_rfft(list(flat[0]))))}
+    if w == 'df':
+        N, fs, B, ks, form = case['N'], case['fs'], case['B'], case['ks'], case['form']
+        amps = [1.0 + 0.5 * i for i in range(len(ks))]
+        rows = np.stack([np.concatenate([_tone(N, kk, a, 0.4)] * B + [np.full(case['r'], 3.0)]) for kk, a in zip(ks, amps)])
+        labels = [f'ch{i}' for i in range(len(ks))] if case.get('labels') != 'int0' else list(range(len(ks)))
+        def mk(arr):
+            if form == 'frame':
+                return pd.DataFrame(arr, index=labels)
+            if form == 'series':
+                return pd.Series(arr[0], name='first')
+            return arr[0] if form == 'array1d' else arr
+        arg = mk(rows)
+        Bk = None if B == 1 and case.get('none_for_one') else B
+        out = {}
+        for name, fn, kw in (('psd', util.psd_df, {'detrend': None}), ('phase', util.phase_df, {'unwrap': False})):
+            d = fn(arg, fs, waveform_averages=Bk, **kw)
+            out[name] = {'cls': type(d).__name__, 'freqs': _fl(d.columns if d.ndim == 2 else d.index),
+                         'index': [str(v) for v in d.index] if d.ndim == 2 else None, 'name': str(getattr(d, 'name', None)),
+                         'freq_name': str((d.columns if d.ndim == 2 else d.index).name),
+                         'at_bin': [float(d.iloc[i, kk]) for i, kk in enumerate(ks)] if d.ndim == 2 else [float(d.iloc[ks[0]])],
+                         'plain': bool(np.allclose(np.asarray(d), (util.psd(rows if d.ndim == 2 else rows[0], fs, waveform_averages=Bk, detrend=None)
+                                                                  if name == 'psd' else
+                                                                  util.phase(rows if d.ndim == 2 else rows[0], fs, waveform_averages=Bk, unwrap=False)),
+                                                   rtol=1e-12, atol=1e-12))}
+        c = util.csd_df(mk(rows[:, :N]), fs, detrend=None)            # csd_df has no averaging: one block
+        out['csd'] = {'cls': type(c).__name__, 'freqs': _fl(c.columns if c.ndim == 2 else c.index),
+                      'index': [str(v) for v in c.index] if c.ndim == 2 else None, 'name': str(getattr(c, 'name', None)),
+                      'at_bin': ([_cx(c.iloc[i, kk]) for i, kk in enumerate(ks)] if c.ndim == 2 else [_cx(c.iloc[ks[0]])])}
+        out['amps'], out['labels'] = amps, [str(v) for v in labels]
+        return out
+    if w == 'batchconv':
+        N, fs, ks = case['N'], case['fs'], case['ks']
+        amps = [1.0 + 0.5 * i for i in range(len(ks))]
+        X = np.stack([_tone(N, kk, a, 0.2 + 0.3 * i) for i, (kk, a) in enumerate(zip(ks, amps))])
+        fr = [kk * fs / N for kk in ks]
+        F = {'array': np.array(fr), 'list': fr, 'int': [int(v) for v in fr], 'intarray': np.array([int(v) for v in fr])}[case['freq_kind']]
+        r = util.tone_conv(X, fs, F, detrend=None)
+        pw = util.tone_power_conv(X, fs, F, detrend=None)
+        one = util.tone_conv(X[1], fs, F[1] if case['freq_kind'] != 'array' else float(F[1]), detrend=None)
+        return {'shape': list(r.shape), 're': [_fl(v) for v in r.real], 'im': [_fl(v) for v in r.imag], 'pw': [_fl(v) for v in pw],
+                'one': _cx(one), 'amps': amps}
+    if w == 'dbkinds':
+        x, r = case['x'], case['r']          # x: a positive integer, r: a positive integer reference
+        fr = pd.DataFrame([[1.0, float(x)], [2.0, 4.0]], index=['a', 'b'], columns=[10.0, 20.0])
+        dbf = util.db(fr)
+        return {'db_int': float(util.db(x)), 'db_int_ref': float(util.db(x, r)), 'db_npint': float(util.db(np.int64(x), np.int32(r))),
+                'db_intarray': _fl(util.db(np.array([1, x, 10 * x]), r)), 'db_tuple': _fl(util.db((1, x), r)),
+                'db_f32': float(util.db(np.float32(x), r)), 'db_refarray': _fl(util.db(float(x), np.array([1.0, float(r)]))),
+                'dbi_int': float(util.dbi(case['d'])), 'dbi_int_ref': float(util.dbi(case['d'], r)),
+                'dbi_intarray': _fl(util.dbi(np.array([0, case['d'], -case['d']]), r)), 'dbi_tuple': _fl(util.dbi((0, case['d']))),
+                'dbtopa_int': float(util.dbtopa(case['d'])), 'patodb_int': float(util.patodb(x)),
+                'patodb_intarray': _fl(util.patodb(np.array([x, 2 * x]))),
+                'frame_cls': type(dbf).__name__, 'frame_vals': _fl(dbf.values), 'frame_index': [str(v) for v in dbf.index],
+                'frame_back': _fl(util.dbi(dbf).values),
+                'db_zero': repr(float(util.db(0.0))), 'db_int_zero': repr(float(util.db(0))), 'dbi_db_zero': float(util.dbi(util.db(0.0), r)),
+                'db_empty': len(util.db([])), 'dbi_empty': len(util.dbi(np.array([]))),
+                'band_npint': float(util.spectrum_to_band_level(case['d'], np.int64(x))),
+                'band_int': float(util.spectrum_to_band_level(case['d'], x)), 'band_float': float(util.spectrum_to_band_level(float(case['d']), float(x))),
+                'band_arrays': _fl(util.spectrum_to_band_level(np.array([0, case['d']]), np.array([x, 10 * x]))),
+                'spec_int': float(util.band_to_spectrum_level(case['d'], x)),
+                'spec_arrays': _fl(util.band_to_spectrum_level(np.array([0, case['d']]), np.array([x, 10 * x]))),
+                'band_series': _fl(util.spectrum_to_band_level(pd.Series([0.0, float(case['d'])]), x))}
+    raise KeyError(w)
+
+
+def _glue_var(case, res):
+    bad = []
+    w = case['what']
+    if w == 'detrend':
+        N, k, A, B = case['N'], case['k'], case['A'], case['B']
+        x = _tone(N, k, A, case['p'])
+        y = x + (_line(case, N) if case['mode'] != 'constant' else case['a'])
+        n = np.arange(N)
+        # what detrending is: subtraction of the mean / of the least-squares line (scipy.signal.detrend), then the model
+        yd = y - np.mean(y) if case['mode'] == 'constant' else y - np.polyval(np.polyfit(n, y, 1), n)
+        sc = A + abs(case['a']) + abs(case['b']) * N
+        if not _close(_arr(res['csd_y']), _model_csd(yd, case.get('window')), sc):
+            bad.append(f'csd with detrend={case["mode"]} differs from the model applied to the frame minus its '
+                       + ('mean' if case['mode'] == 'constant' else 'least-squares line'))
+    elif w == 'winkind':
+        N, A = case['N'], case['A']
+        x = _tone(N, case['k'], A, case['p'])
+        win = _wspec(case['window'])
+        if _cos_coeffs(win) is not None:
+            from scipy import signal
+            sw = signal.get_window(win, N)
+            if not _close(sw / sw.mean(), _window(win, N), 1.0, 1e-12):
+                bad.append(f'scipy window {win} of {N} points is not the cosine sum {_cos_coeffs(win)}')
+        if not _close(_arr(res['csd']), _model_csd(x, win), A):
+            bad.append(f'csd with window {win} differs from the DFT sum of the windowed frame times the generated csd_scale')
+    elif w == 'dtype' and case['dtype'] != 'list':
+        N, A = case['N'], case['A']
+        x = _tone(N, case['k'], A, case['p'])
+        xq = (x if case['dtype'] == 'float32' else np.round(x)).astype(case['dtype']).astype(float)
+        if not abs(res['psd_bin'] - abs(_model_csd(xq, None)[case['k']])) <= 1e-6 * A:
+            bad.append('psd of the typed frame differs from the model on the same values')
+    return bad
+
+
+def _oracle_var(case, res):
+    w = case['what']
+    if w == 'detrend':
+        N, k, A, p, mode = case['N'], case['k'], case['A'], case['p'], case['mode']
+        sc = A + abs(case['a']) + abs(case['b']) * N * case['B']
+        tag = f"N={N} bin {k} A={A} detrend={mode} offset {case['a']} slope {case['b']} window={case.get('window')} averages={case['B']}"
+        if not res['unchanged']:
+            return f'{tag}: the caller\'s array was modified by the spectrum helpers'
+        for key in ('readonly', 'readonly_tc', 'readonly_psd'):
+            if _iserr(res[key]):
+                return f'{tag}: a read-only input was refused ({key}): {res[key]}'
+        if not res['default_is_linear']:
+            return f'{tag}: the default detrend is not "linear"'
+        cy, cx = _arr(res['csd_y']), _arr(res['csd_x'])
+        tol = TOL * sc
+        if mode == 'constant':
+            # a whole-cycle tone has zero mean: removing the mean leaves it intact and silences DC
+            if not abs(cy[k] - A * np.exp(1j * p)) <= tol:
+                return f'{tag}: csd reads {cy[k]} at the bin: expected A exp(ip) (the mean of a whole-cycle tone is 0)'
+            if case.get('window') is None and np.max(np.abs(np.delete(cy, k))) > tol:
+                return f'{tag}: csd reads {np.max(np.abs(np.delete(cy, k)))} away from the bin (DC must be removed)'
+            if not abs(res['psd_y'][k] - A) <= tol or not abs(res['tp_y'] - A) <= tol:
+                return f'{tag}: psd reads {res["psd_y"][k]}, tone_power_conv {res["tp_y"]}'
+            if not abs(_arr(res['tc_y']) - A * np.sqrt(2) * np.exp(1j * p)) <= tol:
+                return f'{tag}: tone_conv returns {_arr(res["tc_y"])}'
+        # detrending is a projection: what is removed from x + (offset / line) is that offset / line plus what is removed from x
+        for a, b, what in ((cy, cx, 'csd'), (np.array(res['psd_y']), np.array(res['psd_x']), 'psd'),
+                           (_arr(res['tc_y']), _arr(res['tc_x']), 'tone_conv'), (res['tp_y'], res['tp_x'], 'tone_power_conv')):
+            if not np.all(np.abs(np.asarray(a) - np.asarray(b)) <= tol):
+                return (f'{tag}: {what} of the tone plus an {"offset" if mode == "constant" else "offset and slope"} differs from '
+                        f'{what} of the tone alone by {np.max(np.abs(np.asarray(a) - np.asarray(b)))}')
+        if not abs(_wrap(res['tph_y'] - res['tph_x'])) <= 1e-7 * sc / A:
+            return f'{tag}: tone_phase_conv changes with an added offset / slope: {res["tph_y"]} vs {res["tph_x"]}'
+        return None
+    if w == 'dtype':
+        tol = 2e-6 if case['dtype'] == 'float32' else 1e-12
+        tag = f"N={case['N']} bin {case['k']} A={case['A']} as {case['dtype']}"
+        for key in ('psd', 'psd_default', 'csd', 'csd_default', 'csd_hann', 'phase', 'tone_conv', 'tone_power', 'rms', 'rms_detrend'):
+            if key in res and not res[key] <= tol:
+                return f'{tag}: {key} differs from the result for the same values as float64 by {res[key]} (relative to A)'
+        if not abs(res['psd_bin'] - res['want']) <= 1e-6 * case['A']:
+            return f'{tag}: psd reads {res["psd_bin"]} at the bin, the values have {res["want"]}'
+        if res.get('same_input') is False:
+            return f'{tag}: the input array was modified'
+        return None
+    if w == 'winkind':
+        N, k, A, p = case['N'], case['k'], case['A'], case['p']
+        win = _wspec(case['window'])
+        c = _cos_coeffs(win)
+        tag = f'N={N} bin {k} A={A} window={win}'
+        if c is not None:
+            J = len(c) - 1
+            if not (J < 2 * k and 2 * k + J < N):
+                return None
+            tol = TOL
+        else:
+            if not (k >= 8 and N / 2 - k >= 8):
+                return None
+            tol = LOOSE[win[0]]
+        cs = _arr(res['csd'])
+        for what, got, want in (('csd', cs[k], A * np.exp(1j * p)), ('psd', res['psd_k'], A), ('tone_power_conv', res['tp'], A),
+                                ('tone_conv', _arr(res['tc']), A * np.sqrt(2) * np.exp(1j * p))):
+            if not abs(got - want) <= tol * abs(want):
+                return f'{tag}: {what} reads {got}, expected {want} (tolerance {tol})'
+        if not abs(_wrap(res['phase_k'] - p)) <= max(tol, TOL):
+            return f'{tag}: phase reads {res["phase_k"]}, expected {p}'
+        if c is not None and len(c) > 1 and 2 * k - 1 > J and 2 * k + 1 + J < N:
+            # the window is really applied: the first neighbour carries |c1| / (2 c0) of the amplitude
+            want = abs(c[1]) / (2 * c[0]) * A
+            if not abs(abs(cs[k + 1]) - want) <= TOL * A:
+                return f'{tag}: the bin next to the tone reads {abs(cs[k + 1])}, a cosine-sum window puts {want} there'
+        return None
+    if w == 'rmsax':
+        X = np.random.RandomState(case['seed']).uniform(-1, 1, case['shape'])
+        ax = case['axis']
+        tag = f"rms of shape {case['shape']} along axis {ax}"
+        want = np.sqrt(np.mean(X ** 2, axis=ax))
+        if res['shape'] != list(want.shape) or not np.allclose(res['r'], want.ravel(), rtol=1e-12, atol=0):
+            return f'{tag}: shape {res["shape"]} / values differ from sqrt(mean(x^2, axis))'
+        if not np.allclose(res['r_default'], np.sqrt(np.mean(X ** 2, axis=-1)).ravel(), rtol=1e-12, atol=0):
+            return f'{tag}: rms(x) is not along the last axis'
+        if res['r_explicit_false'] != res['r']:
+            return f'{tag}: rms(x, False, axis) differs from rms(x, axis=axis)'
+        sc = (1 + abs(case['a']) + abs(case['b']) * X.shape[ax]) * (1 + sum(v * v for v in X.shape))
+        if not np.allclose(res['rd_y'], res['rd_x'], rtol=0, atol=1e-9 * sc):
+            return f'{tag}: rms(detrend=True) of the data plus a line along the axis differs from that of the data'
+        if not res['rd_line'] <= 1e-9 * sc:
+            return f'{tag}: rms(detrend=True) of a pure line is {res["rd_line"]}'
+        if abs(case['b']) > 0 and X.shape[ax] > 1 and not res['r_line'] > 1e-3 * abs(case['b']):
+            return f'{tag}: rms without detrending lost the line'
+        C = _util().csd(X, detrend=None)
+        wantr = np.sqrt(np.sum(np.abs(C) ** 2, axis=-1))
+        if res['rfft_shape'] != list(wantr.shape) or not np.allclose(res['rfft_rows'], wantr.ravel(), rtol=1e-12, atol=0):
+            return f'{tag}: rms_rfft of a batch of spectra differs from sqrt(sum |c|^2) along the last axis'
+        if not abs(res['rfft_series'] - res['rfft_1d']) <= 1e-12 * res['rfft_1d'] or not abs(res['rfft_1d'] - wantr.ravel()[0]) <= 1e-12:
+            return f'{tag}: rms_rfft of a Series {res["rfft_series"]} / 1-D array {res["rfft_1d"]}, expected {wantr.ravel()[0]}'
+        return None
+    if w == 'df':
+        N, fs, B, ks, form = case['N'], case['fs'], case['B'], case['ks'], case['form']
+        freqs = np.fft.rfftfreq(N, 1 / fs)
+        tag = f'labelled twins on {form} input, {len(ks)} rows of {B} x {N} (+{case["r"]}) samples'
+        two = form in ('frame', 'array2d')
+        for name in ('psd', 'phase', 'csd'):
+            o = res[name]
+            if o['cls'] != ('DataFrame' if two else 'Series'):
+                return f'{tag}: {name}_df returned a {o["cls"]}'
+            if len(o['freqs']) != len(freqs) or not np.allclose(o['freqs'], freqs, rtol=1e-12, atol=0):
+                return f'{tag}: {name}_df labels its bins {o["freqs"][:3]}..., expected rfftfreq({N}, 1/{fs})'
+            if form == 'frame' and o['index'] != res['labels']:
+                return f'{tag}: {name}_df lost the row labels of the DataFrame: {o["index"]}'
+            if form == 'series' and o['name'] != 'first':
+                return f'{tag}: {name}_df lost the name of the Series: {o["name"]}'
+        if not res['psd']['plain'] or not res['phase']['plain']:
+            return f'{tag}: the labelled result differs from psd / phase on the bare array'
+        rows = range(len(ks)) if two else [0]
+        for i in rows:
+            if not abs(res['psd']['at_bin'][i if two else 0] - res['amps'][i]) <= TOL * 10:
+                return f'{tag}: psd_df reads {res["psd"]["at_bin"]} at the bins, expected {res["amps"]}'
+            if not abs(_wrap(res['phase']['at_bin'][i if two else 0] - 0.4)) <= TOL:
+                return f'{tag}: phase_df reads {res["phase"]["at_bin"]} at the bins, expected 0.4'
+            c = _arr(res['csd']['at_bin'][i if two else 0])
+            if not abs(c - res['amps'][i] * np.exp(0.4j)) <= TOL * 10:
+                return f'{tag}: csd_df reads {c} at the bin'
+        return None
+    if w == 'batchconv':
+        ks, amps = case['ks'], res['amps']
+        r = np.array(res['re']) + 1j * np.array(res['im'])
+        tag = f"tone_conv of {len(ks)} rows with {len(ks)} frequencies given as {case['freq_kind']}"
+        if res['shape'] != [len(ks), len(ks)]:
+            return f'{tag}: result shape {res["shape"]}'
+        for i in range(len(ks)):
+            for j in range(len(ks)):
+                want = amps[j] * np.sqrt(2) * np.exp(1j * (0.2 + 0.3 * j)) if i == j else 0.0
+                if not abs(r[i, j] - want) <= TOL * 10:
+                    return f'{tag}: frequency {i} against row {j} gives {r[i, j]}, expected {want}'
+                if not abs(res['pw'][i][j] - (amps[j] if i == j else 0.0)) <= TOL * 10:
+                    return f'{tag}: tone_power_conv[{i}][{j}] = {res["pw"][i][j]}'
+        if not abs(_arr(res['one']) - r[1, 1]) <= 1e-12:
+            return f'{tag}: the scalar-frequency call on one row differs from the batched call'
+        return None
+    if w == 'dbkinds':
+        x, r, d = case['x'], case['r'], case['d']
+        L10 = math.log10
+
+        def ok(a, b):
+            return abs(a - b) <= TOL * max(1.0, abs(a), abs(b))
+        checks = [('db(int)', res['db_int'], 20 * L10(x)), ('db(int, int reference)', res['db_int_ref'], 20 * L10(x / r)),
+                  ('db(np.int64, np.int32)', res['db_npint'], 20 * L10(x / r)), ('db(np.float32)', res['db_f32'], 20 * L10(x / r)),
+                  ('dbi(int)', res['dbi_int'], 10 ** (d / 20)), ('dbi(int, int reference)', res['dbi_int_ref'], 10 ** (d / 20) * r),
+                  ('dbtopa(int)', res['dbtopa_int'], 20e-6 * 10 ** (d / 20)), ('patodb(int)', res['patodb_int'], 20 * L10(x / 20e-6)),
+                  ('dbi(db(0.0))', res['dbi_db_zero'], 0.0),
+                  ('band level, n np.int64', res['band_npint'], d + 10 * L10(x)), ('band level, int n', res['band_int'], d + 10 * L10(x)),
+                  ('band level, floats', res['band_float'], d + 10 * L10(x)), ('spectrum level, ints', res['spec_int'], d - 10 * L10(x))]
+        lists = [('db(int array)', res['db_intarray'], [20 * L10(v / r) for v in (1, x, 10 * x)]),
+                 ('db(tuple)', res['db_tuple'], [20 * L10(v / r) for v in (1, x)]),
+                 ('db(x, reference array)', res['db_refarray'], [20 * L10(x), 20 * L10(x / r)]),
+                 ('dbi(int array)', res['dbi_intarray'], [r * 10 ** (v / 20) for v in (0, d, -d)]),
+                 ('dbi(tuple)', res['dbi_tuple'], [1.0, 10 ** (d / 20)]),
+                 ('patodb(int array)', res['patodb_intarray'], [20 * L10(v / 20e-6) for v in (x, 2 * x)]),
+                 ('db(DataFrame)', res['frame_vals'], [0.0, 20 * L10(x), 20 * L10(2), 20 * L10(4)]),
+                 ('dbi(db(DataFrame))', res['frame_back'], [1.0, float(x), 2.0, 4.0]),
+                 ('band level of arrays', res['band_arrays'], [10 * L10(x), d + 10 * L10(10 * x)]),
+                 ('spectrum level of arrays', res['spec_arrays'], [-10 * L10(x), d - 10 * L10(10 * x)]),
+                 ('band level of a Series', res['band_series'], [10 * L10(x), d + 10 * L10(x)])]
+        for what, got, want in checks:
+            if not ok(got, want):
+                return f'{what} = {got}, expected {want} (x={x}, reference={r}, d={d})'
+        for what, got, want in lists:
+            if len(got) != len(want) or not all(ok(a, b) for a, b in zip(got, want)):
+                return f'{what} = {got}, expected {want} (x={x}, reference={r}, d={d})'
+        if res['frame_cls'] != 'DataFrame' or res['frame_index'] != ['a', 'b']:
+            return f'db(DataFrame) returned {res["frame_cls"]} with index {res["frame_index"]}'
+        if res['db_zero'] != '-inf' or res['db_int_zero'] != '-inf':
+            return f'db(0) = {res["db_zero"]} / {res["db_int_zero"]}, expected -inf'
+        if res['db_empty'] != 0 or res['dbi_empty'] != 0:
+            return 'db / dbi of an empty input is not empty'
+        return None
+    raise KeyError(w)
+
+
 def impl(case):
     import warnings
     with warnings.catch_warnings():
         warnings.simplefilter('ignore')
         return {'tone': _impl_tone, 'dcnyq': _impl_dcnyq, 'random': _impl_random, 'impulse': _impl_impulse,
-                'db': _impl_db, 'known': _impl_known}[case['kind']](case)
+                'db': _impl_db, 'known': _impl_known, 'var': _impl_var}[case['kind']](case)
 
 
 # ====================================================================================================================
@@ -296,9 +680,30 @@ def _close(a, b, scale, tol=TOL):
     return bool(np.all(np.abs(np.asarray(a) - np.asarray(b)) <= tol * max(scale, 1e-300)))
 
 
+def _wspec(w):
+    """window specification as scipy takes it: JSON lists become the (name, parameter) tuples"""
+    return tuple(w) if isinstance(w, list) else w
+
+
+def _cos_coeffs(w):
+    """cosine-sum coefficients (Spectrum/DFT.v cos_window) of the window specifications C16_window_law covers, else None"""
+    if isinstance(w, str):
+        return COSINE.get(w) or ([1.0] if w == 'boxcar' else None)
+    if w[0] == 'general_hamming':
+        return [w[1], -(1 - w[1])]
+    if w[0] == 'general_cosine':
+        return [(-1) ** j * a for j, a in enumerate(w[1])]
+    return None
+
+
 def _window(name, n):
-    """Spectrum/DFT.v: cos_window divided by its mean, which is its constant coefficient (C16_window_mean)"""
-    c = COSINE[name]
+    """Spectrum/DFT.v: cos_window divided by its mean, which is its constant coefficient (C16_window_mean); windows that
+    are not cosine sums (kaiser, tukey, gaussian) are taken from scipy (oracle primitive) and divided by their mean"""
+    c = _cos_coeffs(name)
+    if c is None:
+        from scipy import signal
+        w = signal.get_window(_wspec(name), n)
+        return w / w.mean()
     k = np.arange(n)
     w = sum(cj * np.cos(2 * np.pi * j * k / n) for j, cj in enumerate(c))
     return w / c[0]
@@ -321,6 +726,8 @@ def _glue(case, res):
         return []
     bad = []
     k = case['kind']
+    if k == 'var':
+        return _glue_var(case, res)
     if k == 'tone':
         N, A, fs, B, w = case['N'], case['A'], case['fs'], case['B'], case['window']
         x, long = _frames(case)
@@ -424,6 +831,13 @@ def _oracle_tone(case, res):
         o = np.delete(np.array(res['psd']), k)
         if len(o) and np.max(o) > TOL * A:
             return f'{tag}: averaged psd at another bin reads {np.max(o)}'
+    # unwrap=False is the principal value: p itself (p lies inside (-pi, pi)); unwrap=True has no jump above pi between bins
+    if not _iserr(res['phase']) and not abs(res['phase'] - p) <= TOL:
+        return f'{tag}: util.phase(unwrap=False) reads {res["phase"]} at the bin, the principal value is {p}'
+    if not _iserr(res['wrapped_max']) and not res['wrapped_max'] <= math.pi + 1e-12:
+        return f'{tag}: util.phase(unwrap=False) leaves (-pi, pi]: {res["wrapped_max"]}'
+    if not _iserr(res['unwrap_steps']) and not res['unwrap_steps'] <= math.pi + 1e-9:
+        return f'{tag}: util.phase(unwrap=True) jumps by {res["unwrap_steps"]} between neighbouring bins'
     for key in ('phase', 'phase_unwrapped', 'phase_avg'):
         v = res[key]
         if _iserr(v):
@@ -554,6 +968,17 @@ def _oracle_known(case, res):
             return (f'csd_to_signal(csd(x)) of an odd-length frame ({len(res["x"])} samples) returns {len(res["back"])} samples: '
                     'the one-sided spectrum does not carry the parity of the length')
         return None
+    if case['what'] == 'batch-inverse':
+        if abs(res['ratio'] - 1.0) > 1e-9:
+            return (f'csd_to_signal(csd(X)) of a batch X of shape ({case["rows"]}, {case["N"]}) returns X times {res["ratio"]}: the '
+                    f'length is taken from len(csd) = number of ROWS (n = 2 (rows - 1)), not from the number of bins; row by row it '
+                    f'{"is exact" if res["rowwise_ok"] else "also fails"}')
+        return None
+    if case['what'] == 'int16-rms':
+        if abs(res['int16'] - res['float']) > 1e-9 * res['float']:
+            return (f'util.rms of an int16 array of RMS {res["float"]} returns {res["int16"]}: s**2 overflows in int16 (the same '
+                    'values as int32 / int64 / float are exact)')
+        return None
     if case['what'] == 'default-detrend':
         if abs(res['default'] - 1.0) > 1e-6:
             return (f'with the DEFAULT detrend="linear", csd of a unit-RMS sinusoid at bin {case["k"]} of {case["N"]} samples reads '
@@ -568,7 +993,7 @@ def _oracle_known(case, res):
 
 def oracle(case, res):
     return {'tone': _oracle_tone, 'dcnyq': _oracle_dcnyq, 'random': _oracle_random, 'impulse': _oracle_impulse,
-            'db': _oracle_db, 'known': _oracle_known}[case['kind']](case, res)
+            'db': _oracle_db, 'known': _oracle_known, 'var': _oracle_var}[case['kind']](case, res)
 
 
 def nontrivial(case, res):
@@ -578,6 +1003,8 @@ def nontrivial(case, res):
 KNOWN_WITNESSES = {
     'csd_to_signal:odd-length': {'kind': 'known', 'what': 'odd-inverse', 'N': 9},
     'detrend:default-linear-biases-low-bins': {'kind': 'known', 'what': 'default-detrend', 'N': 257, 'k': 1, 'p': 1.0},
+    'csd_to_signal:batch-scale': {'kind': 'known', 'what': 'batch-inverse', 'rows': 3, 'N': 64},
+    'rms:int16-overflow': {'kind': 'known', 'what': 'int16-rms', 'N': 64, 'A': 1000.0},
 }
 # outside the property text (it speaks of ONE sinusoid), kept for replay: tone_power_fft / tone_phase_fft ignore `frequency`
 OBSERVATIONS = {'tone_power_fft:frequency-ignored': {'kind': 'known', 'what': 'fft-frequency-ignored', 'N': 64, 'fs': 1000.0,
@@ -587,6 +1014,7 @@ OBSERVATIONS = {'tone_power_fft:frequency-ignored': {'kind': 'known', 'what': 'f
 def key(case, res):
     if case and case.get('kind') == 'known':
         return {'odd-inverse': 'csd_to_signal:odd-length', 'default-detrend': 'detrend:default-linear-biases-low-bins',
+                'batch-inverse': 'csd_to_signal:batch-scale', 'int16-rms': 'rms:int16-overflow',
                 'fft-frequency-ignored': 'tone_power_fft:frequency-ignored'}[case['what']]
     return None
 
@@ -595,7 +1023,8 @@ def distribution(cases, results):
     d = {'kinds': {}, 'lengths': {'even': 0, 'odd': 0, 'min': None, 'max': None}, 'windows': {}, 'averages': {},
          'trimmed_samples': {}, 'batched': 0}
     for c in cases:
-        d['kinds'][c['kind']] = d['kinds'].get(c['kind'], 0) + 1
+        kk = c['kind'] if c['kind'] != 'var' else 'var:' + c['what']
+        d['kinds'][kk] = d['kinds'].get(kk, 0) + 1
         N = c.get('N', c.get('n'))
         if N is not None and c['kind'] != 'db':
             d['lengths']['even' if N % 2 == 0 else 'odd'] += 1
@@ -652,6 +1081,53 @@ def _db_case(rng):
             'form': rng.choice(['list', 'array', 'series', 'scalar'])}
 
 
+def _var_cases(rng, quick):
+    def nk(lo_n=16, hi_n=96):
+        N = rng.randint(lo_n, hi_n)
+        return N, rng.randint(1, (N - 1) // 2)
+    for mode in ('constant', 'linear', 'default'):
+        for win in (None, 'hann'):
+            for B in (1, 2):
+                for _ in range(2 if quick else 12):
+                    N, k = nk()
+                    if win:
+                        k = min(max(k, 2), (N - 2) // 2)
+                    A = float(10 ** rng.uniform(-2, 2))
+                    yield {'kind': 'var', 'what': 'detrend', 'N': N, 'k': k, 'A': A, 'p': rng.uniform(-3, 3), 'fs': rng.choice(RATES),
+                           'mode': mode, 'a': rng.choice([0.0, A * rng.uniform(-20, 20)]), 'b': rng.choice([0.0, A * rng.uniform(-0.5, 0.5)]),
+                           'B': B, 'window': win}
+    for dt in ('int64', 'int32', 'float32', 'list'):
+        for _ in range(3 if quick else 20):
+            N, k = nk()
+            yield {'kind': 'var', 'what': 'dtype', 'N': N, 'k': k, 'A': rng.choice([50.0, 700.0, float(rng.randint(20, 3000))]),
+                   'p': rng.uniform(-3, 3), 'fs': rng.choice(RATES), 'B': rng.choice([1, 3]), 'dtype': dt}
+    wins = [['general_hamming', 0.6], ['general_hamming', 0.75], ['general_cosine', [0.5, 0.3, 0.2]], ['general_cosine', [0.4, 0.3, 0.2, 0.1]],
+            'boxcar', ['kaiser', 8.0], ['tukey', 0.5], ['gaussian', 7.0]]
+    for win in wins:
+        for _ in range(2 if quick else 12):
+            N = rng.randint(40, 128)
+            k = rng.randint(8, N // 2 - 8) if rng.random() < 0.6 else rng.randint(2, (N - 5) // 2)
+            yield {'kind': 'var', 'what': 'winkind', 'N': N, 'k': k, 'A': float(10 ** rng.uniform(-2, 2)), 'p': rng.uniform(-3, 3),
+                   'fs': rng.choice(RATES), 'window': win}
+    for shape, axes in (([7], [0, -1]), ([3, 8], [0, 1, -1, -2]), ([2, 3, 5], [0, 1, 2, -1]), ([1, 4], [0, 1])):
+        for ax in axes:
+            yield {'kind': 'var', 'what': 'rmsax', 'shape': shape, 'axis': ax, 'seed': rng.randrange(10 ** 6),
+                   'a': rng.uniform(-5, 5), 'b': rng.choice([0.0, rng.uniform(-2, 2), 1.5])}
+    for form in ('array2d', 'frame', 'series', 'array1d'):
+        for B in (1, 2, 3):
+            N = rng.choice([16, 25, 40])
+            ks = sorted(rng.sample(range(1, (N - 1) // 2 + 1), 3))
+            yield {'kind': 'var', 'what': 'df', 'N': N, 'fs': rng.choice(RATES), 'B': B, 'r': rng.randrange(B), 'ks': ks, 'form': form,
+                   'none_for_one': rng.random() < 0.5, 'labels': rng.choice(['str', 'int0'])}
+    for fk in ('array', 'list', 'int', 'intarray'):
+        N = rng.choice([20, 50, 100])
+        yield {'kind': 'var', 'what': 'batchconv', 'N': N, 'fs': 1000.0, 'ks': sorted(rng.sample(range(1, (N - 1) // 2 + 1), 3)),
+               'freq_kind': fk}
+    for _ in range(6 if quick else 60):
+        yield {'kind': 'var', 'what': 'dbkinds', 'x': rng.choice([1, 2, 10, rng.randint(1, 5000)]), 'r': rng.choice([1, 2, 7]),
+               'd': rng.choice([0, 20, -20, rng.randint(-120, 140)])}
+
+
 def corpus():
     return [{'kind': 'tone', 'N': 16, 'k': 1, 'A': 1.0, 'p': 1.0, 'fs': 1000.0, 'B': 2, 'r': 1, 'window': None, 'batch': [1, 3, 7]},
             {'kind': 'tone', 'N': 257, 'k': 128, 'A': 0.5, 'p': -2.0, 'fs': 195312.5, 'B': 4, 'r': 3, 'window': None},
@@ -689,6 +1165,7 @@ def cases(tier, rng):
                 yield {'kind': 'impulse', 'n': n, 'B': B, 'i': i}
     for _ in range(60 if quick else 600):
         yield _db_case(rng)
+    yield from _var_cases(rng, quick)
 
 
 def search(tier, rng):
